@@ -20,7 +20,7 @@ Qed.
 (* one step of the lexer: tokens emitted, next state *)
 Definition lex_step (st : lstate) (i : item) : list ctok * lstate :=
   match i with
-  | Tok _ m => (flush st ++ [tok_of_match m], LNone)
+  | Tok _ m => (flush st ++ (if fuses st m then [CBad] else []) ++ [tok_of_match m], after_match m)
   | Chr c =>
     if is_digit c || Ascii.eqb c "." then
       match st with LNum a => ([], LNum (String c a)) | _ => (flush st, LNum (String c "")) end
@@ -42,7 +42,7 @@ Proof.
     destruct (Ascii.eqb c "*"); [destruct st; reflexivity|].
     destruct (is_opc c); [destruct st; try reflexivity; destruct (Ascii.eqb c "="); reflexivity|].
     destruct (is_space c); cbn [fst snd]; [reflexivity|]. rewrite <- app_assoc. reflexivity.
-  - cbn [fst snd]. rewrite <- app_assoc. reflexivity.
+  - cbn [fst snd]. rewrite <- !app_assoc. reflexivity.
 Qed.
 
 Lemma lex_space st c r : is_space c = true -> lex_items st (Chr c :: r) = flush st ++ lex_items LNone r.
